@@ -310,6 +310,9 @@ func loadText(ms *yang.Modules, id string) error {
 		os.WriteFile("files/xf.yang", []byte(Texts["x-file-syntax"]), 0o644)
 		os.WriteFile("files/bb.yang", []byte(Texts["bb-r1"]), 0o644)
 		os.WriteFile("files/bbf.yang", []byte(Texts["bbf"]), 0o644)
+		// (the module that "lnk" imports and nobody loads lives here too: once a file of this directory has been read,
+		// a run finds it - also a run that follows one in which it could not be found)
+		os.WriteFile("files/nowhere-to-be-found.yang", []byte(`module nowhere-to-be-found { namespace "urn:nw"; prefix nw; leaf found { type string; } }`), 0o644)
 		os.WriteFile("files/ibf.yang", []byte(Texts["ibf"]), 0o644)
 		if id == "ibf" {
 			return ms.Read("files/ibf.yang")
@@ -627,7 +630,7 @@ func genSession(body []byte) *core.Verdict {
 	ms := yang.NewModules()
 	accepted := []string{}
 	var hs []string
-	lastRun, anyRun := false, false
+	lastRun := false
 	nops := 8 + rng.Intn(11)
 	nrun := 0
 	for i := 0; i < nops; i++ {
@@ -653,10 +656,10 @@ func genSession(body []byte) *core.Verdict {
 			want := batch(accepted)
 			emit(map[string]any{"ev": "process", "accepted": append([]string{}, accepted...), "eq": got == want, "diff": firstDiff(got, want)})
 			hs = append(hs, "process")
-			lastRun, anyRun = true, true
+			lastRun = true
 			nrun++
 		case x < 87:
-			if !anyRun || !lastProcess(hs) {
+			if len(accepted) == 0 || (len(hs) > 0 && hs[len(hs)-1] == "query") {
 				continue
 			}
 			queries(ms)
@@ -682,7 +685,7 @@ func genSession(body []byte) *core.Verdict {
 			want := batch(accepted)
 			emit(map[string]any{"ev": "get", "accepted": append([]string{}, accepted...), "eq": got == want, "diff": firstDiff(got, want)})
 			hs = append(hs, "get("+name+")")
-			lastRun, anyRun = true, true
+			lastRun = true
 			nrun++
 		default:
 			if !lastRun {
